@@ -249,6 +249,11 @@ package internal
 //@   reveal tenthPlus1s
 //@   ensures result >= 0 && result <= heurUpper(h, date)      # name: at-most-tenth
 
+// freshCalcAt: the clock reading at which the last freshness calculation started. realAge(f, e):
+// the freshness value f carries at least the RFC 9111 4.2.3 age entry e had at that moment (a
+// request's max-age=0 makes CalculateFreshness answer "age 0, lifetime 0", which does not).
+//@ ghost var freshCalcAt time.Time
+//@ spec func realAge(f *Freshness, e *Response) bool = f.Age.Value >= ageAt(initialAge(hget(e.Data.Header, "Age"), dateOf(e.Data.Header), e.RequestedAt, e.ReceivedAt), e.ReceivedAt, freshCalcAt)
 //@ iface FreshnessCalculator.CalculateFreshness(f, entry, reqCC, resCC)
 //@   property C01 C02 C09 C11 C13
 //@   requires entry != nil && entry.Data != nil
@@ -256,9 +261,10 @@ package internal
 //@   let date = dateOf(hdr)
 //@   let a0 = initialAge(hget(hdr, "Age"), date, entry.RequestedAt, entry.ReceivedAt)
 //@   let L = reqCap(lifeUpper(hdr, entry.Data.StatusCode, hasArr(resCC), valArr(resCC), date), hasArr(reqCC), valArr(reqCC))
-//@   assigns now
+//@   assigns now, freshCalcAt
 //@   fresh
 //@   ensures result != nil && result.Age != nil && fresh(result.Age)                                  # name: shape
+//@   ensures freshCalcAt == old(now)                                                                  # ghost-update
 //@   let reqZero = ccValid(reqCC, "max-age") && ccDur(reqCC, "max-age") == 0
 //@   ensures !reqZero ==> result.Age.Value >= ageAt(a0, entry.ReceivedAt, old(now))                  # name: age-lower
 //@   ensures result.Age.Value <= ageAt(a0, entry.ReceivedAt, result.Age.Timestamp)                  # name: age-upper
